@@ -64,6 +64,163 @@ func ruleC19Structure(c *core.Ctx) {
 		cl := c.Prog.Func("pdf", "(*sourceAwareReader).Close")
 		o.Shape(c.Prog.Src(cl.Decl.Body) == "{returns.inner.Close()}", "Close must be forwarded to the chain")
 	})
+	for _, fname := range []string{"(*sourceAwareReader).Read", "(*sourceErrChecker).promote"} {
+		fname := fname
+		c.Check("C19-R3", "pdf."+fname+"/substitutes", "whenever the filter chain reports an error and a source error is latched, the latched error is returned (decided on path conditions: every way of returning anything else implies that the chain's error is nil or nothing is latched)", func(o *core.Ob) {
+			fn := c.Prog.Func("pdf", fname)
+			g := fn.Graph()
+			info := fn.Info()
+			delegates := false
+			for _, r := range g.Returns() {
+				rs := r.AST.(*ast.ReturnStmt)
+				for _, res := range rs.Results {
+					if call, ok := ast.Unparen(res).(*ast.CallExpr); ok && strings.HasSuffix(core.CalleeKey(info, call), ".promote") {
+						delegates = true
+					}
+				}
+			}
+			isLatched := func(e ast.Expr) bool {
+				sel, ok := ast.Unparen(e).(*ast.SelectorExpr)
+				return ok && sel.Sel.Name == "srcErr"
+			}
+			var latched ast.Expr
+			ast.Inspect(fn.Decl.Body, func(n ast.Node) bool {
+				if e, ok := n.(ast.Expr); ok && isLatched(e) && latched == nil {
+					latched = e
+				}
+				return true
+			})
+			if latched == nil {
+				if delegates {
+					o.Count(1)
+					o.Fact("the substitution is delegated to promote")
+					return
+				}
+				o.Fail("%s never looks at the latched source error", fname)
+				return
+			}
+			// the error of the inner read
+			var innerDef *core.V
+			var innerErr types.Object
+			for _, v := range g.Vs {
+				as, ok := v.AST.(*ast.AssignStmt)
+				if !ok || len(as.Rhs) != 1 || len(as.Lhs) != 2 {
+					continue
+				}
+				if call, ok := ast.Unparen(as.Rhs[0]).(*ast.CallExpr); ok && strings.HasSuffix(core.CalleeKey(info, call), ".Read") {
+					innerDef, innerErr = v, core.ObjOf(info, as.Lhs[1])
+				}
+			}
+			if innerErr == nil && fn.Decl.Type.Params != nil {
+				// promote(err): the chain's error is the parameter
+				for _, f := range fn.Decl.Type.Params.List {
+					for _, nm := range f.Names {
+						if core.IsErrorType(info.ObjectOf(nm).Type()) {
+							innerErr = info.ObjectOf(nm)
+						}
+					}
+				}
+			}
+			if innerErr == nil {
+				core.Undecided("the error of the chain was not found in %s", fname)
+			}
+			if innerDef != nil {
+				o.At(fn.Site(innerDef.AST, "inner read"))
+			}
+			nilID := &ast.Ident{Name: "nil"}
+			n := 0
+			for _, r := range g.Returns() {
+				rs := r.AST.(*ast.ReturnStmt)
+				if len(rs.Results) == 0 {
+					continue
+				}
+				res := rs.Results[len(rs.Results)-1]
+				if isLatched(res) {
+					continue
+				}
+				obj := core.ObjOf(info, res)
+				if obj == nil {
+					if core.IsNil(info, res) {
+						// returning success: only when the chain reported none
+						atoms := g.DominatingAtoms(r)
+						errID := identUse(fn, innerErr)
+						want := &ast.BinaryExpr{X: errID, Op: token.EQL, Y: nilID}
+						holds, _, decided := c.Prog.Implies(core.Formula{Fn: fn, Atoms: atoms}, core.Formula{Fn: fn, Atoms: []core.Atom{{Expr: want}}})
+						o.Count(1)
+						n++
+						if !decided || !holds {
+							o.FailAt(fn.Site(rs, ""), "success is returned although the chain may have reported an error")
+						}
+						continue
+					}
+					// a call such as s.src.promote(err): the substitution is made there (checked by the form rule above)
+					n++
+					continue
+				}
+				defs := defVertices(g, obj)
+				if len(defs) == 0 {
+					// a parameter returned as it came in
+					n++
+					o.Count(1)
+					errID := identUse(fn, innerErr)
+					want := &ast.BinaryExpr{
+						X:  &ast.BinaryExpr{X: errID, Op: token.EQL, Y: nilID},
+						Op: token.LOR,
+						Y:  &ast.BinaryExpr{X: latched, Op: token.EQL, Y: nilID},
+					}
+					holds, counter, decided := c.Prog.Implies(core.Formula{Fn: fn, Atoms: g.DominatingAtoms(r)}, core.Formula{Fn: fn, Atoms: []core.Atom{{Expr: want}}})
+					if !decided {
+						core.Undecided("path condition not decided: %s", counter)
+					}
+					if !holds {
+						o.FailAt(fn.Site(rs, ""), "%s: the error of the chain is returned although a source error is latched (%s)", c.Prog.Pos(rs.Pos()), counter)
+					}
+					continue
+				}
+				for _, d := range defs {
+					var others []*core.V
+					for _, x := range defs {
+						if x != d {
+							others = append(others, x)
+						}
+					}
+					if !g.ReachFrom(d, false, core.AvoidVs(others...))[r] {
+						continue
+					}
+					n++
+					o.Count(1)
+					// what is assigned here?
+					if as, ok := d.AST.(*ast.AssignStmt); ok && len(as.Lhs) == len(as.Rhs) {
+						subst := false
+						for i, l := range as.Lhs {
+							if core.ObjOf(info, l) == obj && isLatched(as.Rhs[i]) {
+								subst = true
+							}
+						}
+						if subst {
+							continue // the latched error
+						}
+					}
+					// anything else may be returned only if the chain's error is nil or nothing is latched
+					atoms := append(append([]core.Atom{}, g.DominatingAtoms(d)...), atomsBetween(g, d, r, others)...)
+					errID := identUse(fn, innerErr)
+					want := &ast.BinaryExpr{
+						X:  &ast.BinaryExpr{X: errID, Op: token.EQL, Y: nilID},
+						Op: token.LOR,
+						Y:  &ast.BinaryExpr{X: latched, Op: token.EQL, Y: nilID},
+					}
+					holds, counter, decided := c.Prog.Implies(core.Formula{Fn: fn, Atoms: atoms}, core.Formula{Fn: fn, Atoms: []core.Atom{{Expr: want}}})
+					if !decided {
+						core.Undecided("path condition not decided: %s", counter)
+					}
+					if !holds {
+						o.FailAt(fn.Site(rs, ""), "%s: the error of the chain is returned although a source error is latched (%s): an I/O failure relabelled by a filter reaches the caller as a malformed-file error", c.Prog.Pos(rs.Pos()), counter)
+					}
+				}
+			}
+			o.Require(n >= 1, "no return of an error found")
+		})
+	}
 	c.Check("C19-R3", "pdf.asMalformedFilter~filterContentReader", "the two relabelling points wrap exactly the errors that are neither malformed nor end of input", func(o *core.Ob) {
 		am := c.Prog.Func("pdf", "asMalformedFilter")
 		o.At(am.Site(am.Decl, ""))
@@ -304,7 +461,6 @@ func ruleDeferredErrorReachesCaller(c *core.Ctx) {
 		}
 	})
 }
-
 
 // exploreAll widens the generic rules to every loaded repository package
 // (used by the exploration-only property X00, never by a registered command).
